@@ -936,6 +936,7 @@ func init() {
 			BatchRun: progBatch, ShrinkBudget: 30, MaxShrinks: 5,
 			Rule: "programs of 2–6 functions over the core language (1–3 results of int/string/error, 1–3 return statements, literals, opaque expressions, nil, single-result calls, multi-value forwarding, self and mutual recursion through any result index, literal-only functions) printed to Go, loaded with the real loader (120 per load) and asked in supervised child processes (small maximum stack, time limit, the query that kills a child is reported as not returning and a fresh child carries on); compared: FuncResults.String() with the model; oracle in the child: n lists, each non-empty, alternatives constants or assignable types, same answer twice; literal-only functions against their literals",
 		},
+		xprogStream,
 		{
 			Name: "extended", New: func() Case { return &extCase{} },
 			Enum: func(tier string, yield func(Case)) {
